@@ -164,6 +164,36 @@ pub enum RunResult {
     Panic(String),
 }
 
+/// Wall-clock guard around the calls into the library: the library can spin for ever when a solver
+/// process dies (read_response on EOF).  A watchdog thread ends the harness with a diagnostic (exit
+/// code 3: infrastructure failure) instead of hanging the check.
+static WATCH_DEADLINE: std::sync::atomic::AtomicU64 = std::sync::atomic::AtomicU64::new(0);
+static WATCH_STARTED: std::sync::Once = std::sync::Once::new();
+
+fn now_s() -> u64 {
+    std::time::SystemTime::now().duration_since(std::time::UNIX_EPOCH).map(|d| d.as_secs()).unwrap_or(0)
+}
+
+pub fn watchdog_arm(limit_s: u64, what: &str) {
+    WATCH_STARTED.call_once(|| {
+        std::thread::spawn(|| loop {
+            std::thread::sleep(std::time::Duration::from_millis(500));
+            let d = WATCH_DEADLINE.load(std::sync::atomic::Ordering::SeqCst);
+            if d != 0 && now_s() > d {
+                let what = std::fs::read_to_string(format!("c02-current-run-{}.txt", std::process::id())).unwrap_or_default();
+                eprintln!("harness watchdog: a call into patronus::mc::bmc did not return in time (the library spins when the solver process has exited); current run:\n{what}");
+                std::process::exit(3);
+            }
+        });
+    });
+    let _ = std::fs::write(format!("c02-current-run-{}.txt", std::process::id()), what);
+    WATCH_DEADLINE.store(now_s() + limit_s, std::sync::atomic::Ordering::SeqCst);
+}
+
+pub fn watchdog_disarm() {
+    WATCH_DEADLINE.store(0, std::sync::atomic::Ordering::SeqCst);
+}
+
 /// one call of the real `bmc`
 pub fn run_bmc(pool: &mut Pool, profile: &str, fresh: bool, ctx: &mut Context, sys: &TransitionSystem, individually: bool, k: u64) -> RunResult {
     let solver = solver_of(profile);
@@ -176,7 +206,9 @@ pub fn run_bmc(pool: &mut Pool, profile: &str, fresh: bool, ctx: &mut Context, s
     };
     if fresh {
         pool.launches += 1;
-        let mut smt = match solver.start(None) {
+        // debugging aid: VERIF_SMT_REPLAY=<file> makes fresh runs write patronus' replay file
+        let replay = std::env::var("VERIF_SMT_REPLAY").ok().and_then(|p| std::fs::File::create(p).ok());
+        let mut smt = match solver.start(replay) {
             Ok(s) => s,
             Err(e) => return RunResult::Err(format!("cannot start {profile}: {e}")),
         };
@@ -368,8 +400,11 @@ pub fn sim_replay(ctx: &Context, sys: &TransitionSystem, w: &Witness) -> String 
 /// does the system contain (as const ..) applied to something that is not a literal?  cvc5 refuses
 /// such a term, prints a multi-line parse error and EXITS; patronus' read_response then spins on EOF.
 pub fn has_nonvalue_const_array(ctx: &Context, sys: &TransitionSystem) -> bool {
+    // a literal that is itself a constraint / bad state becomes a signal: the encoding then
+    // replaces it by its step symbol everywhere, also below (as const ..)
+    let literal_root = sys.constraints.iter().chain(sys.bad_states.iter()).any(|e| matches!(ctx[*e], Expr::BVLiteral(_)));
     all_nodes(ctx, sys).iter().any(|n| match &ctx[*n] {
-        Expr::ArrayConstant { e, .. } => !matches!(ctx[*e], Expr::BVLiteral(_)),
+        Expr::ArrayConstant { e, .. } => literal_root || !matches!(ctx[*e], Expr::BVLiteral(_)),
         _ => false,
     })
 }
@@ -499,7 +534,9 @@ pub fn run_case(id: &str, inp: McInput, plan: &[RunSpec], pool: &mut Pool, z3arg
                 continue;
             }
         }
+        watchdog_arm(120, &format!("{} {} {}\n{}", r.profile, if r.individually { "indiv" } else { "joint" }, if r.simplified { "simplified" } else { "raw" }, case_txt));
         let res = run_bmc(pool, r.profile, r.fresh, &mut ctx, the_sys, r.individually, k);
+        watchdog_disarm();
         if r.profile == "z3" {
             z3_err[r.simplified as usize] = Some(matches!(res, RunResult::Err(_) | RunResult::Panic(_)));
         }
@@ -646,7 +683,7 @@ pub fn run_mc(args: &Args, witness_focus: bool) {
     let mut n = 0u64;
     let mut produced = 0u64;
     let mut attempts = 0u64;
-    while produced < args.count && attempts < args.count * 12 {
+    while produced < args.count && attempts < args.count * 40 {
         attempts += 1;
         let mut r = rng.fork();
         if reseed_every > 0 && n % reseed_every == 0 {
@@ -659,13 +696,25 @@ pub fn run_mc(args: &Args, witness_focus: bool) {
         n += 1;
         let mut ctx = Context::default();
         let g = gen_mc_sys(&mut ctx, &mut r, &cfg, &mut stats);
-        let k = r.range(1, kmax);
+        let k = match g.depth_hint {
+            Some(v) if r.chance(3, 4) => r.range(v.saturating_sub(1).max(1), (v + 3).min(kmax)),
+            _ => r.range(1, kmax),
+        };
         if witness_focus {
             // keep only systems that fail under z3
             let probe = run_bmc(&mut pool, "z3", false, &mut ctx, &g.sys, false, k);
-            if !matches!(probe, RunResult::Fail(_)) {
-                stats.inc("systems_without_counterexample_skipped");
-                continue;
+            match &probe {
+                RunResult::Fail(w) => {
+                    // most counterexamples are at depth 0: keep only a third of those
+                    if w.inputs.len() == 1 && r.chance(2, 3) {
+                        stats.inc("depth0_counterexamples_thinned_out");
+                        continue;
+                    }
+                }
+                _ => {
+                    stats.inc("systems_without_counterexample_skipped");
+                    continue;
+                }
             }
         }
         let plan = plan_for(&mut r, &mut run_no, witness_focus);
